@@ -2165,7 +2165,7 @@ class GAM(Core, MetaTermMixin):
             return self
 
         # copy over the best
-        if keep_best:
+        if keep_best and best_model is not None:
             # copy, so that self and the returned winner do not share mutable state
             self.set_params(
                 deep=True, force=True, **deepcopy(best_model.get_params(deep=True))
